@@ -104,113 +104,221 @@ theorem tcEdit_ok {S : Sem Content} {g : Cache → Cache} (hg : CacheEdit g) (t 
     TcOK S { t with cache := g t.cache } :=
   ⟨ht.1, hg.1 _ ht.2.1, fun h => hg.2 _ S _ _ (ht.2.2 h)⟩
 
-/-! ## suites -/
+/-! ## suites (member objects by reference) -/
 
-def SuGood (S : Sem Content) (s : Suite) : Prop := ∀ t ∈ s.tests, TcOK S t
+theorem mem_of_getElem? {l : List α} {i : Nat} {a : α} (h : l[i]? = some a) : a ∈ l :=
+  List.mem_iff_getElem?.2 ⟨i, h⟩
+
+theorem forall_set {P : α → Prop} {l : List α} (h : ∀ a ∈ l, P a) (i : Nat) (b : α) (hb : P b) :
+    ∀ a ∈ l.set i b, P a := by
+  intro a ha
+  rcases List.mem_or_eq_of_mem_set ha with e | e
+  · exact h a e
+  · exact e ▸ hb
+
+def SuGood (S : Sem Content) (s : Suite) : Prop := ∀ t ∈ s.objs, TcOK S t
 
 def contents (ts : List Tc) : List Content := ts.map (·.content)
 
 def SuiteOK (S : Sems) (s : Suite) : Prop :=
-  SuGood S.tc s ∧ RegInv s.cache ∧ (s.changed = false → CacheFresh S.su s.cache (contents s.tests))
+  SuGood S.tc s ∧ RegInv s.cache ∧ (s.changed = false → CacheFresh S.su s.cache (contents s.members))
 
-theorem runMember_spec {S : Sem Content} (t : Tc) (ht : TcOK S t) :
-    TcOK S (runMember t).1 ∧ (runMember t).1.content = t.content ∧ (runMember t).2 = t.content := by
-  obtain ⟨hg, hr, hf⟩ := ht
-  obtain ⟨c, ch, r, ca⟩ := t
-  cases ch <;> cases r <;>
-    simp_all [runMember, TcOK, TcGood, regInv_invalidate, cacheFresh_invalidate]
+theorem objAt_of_getElem? {st : List Tc} {i : Nat} {t : Tc} (h : st[i]? = some t) : objAt st i = t := by
+  simp [objAt, List.getD_eq_getElem?_getD, h]
 
-theorem suLaws (S : Sem Content) : Laws suiteHost (fun s : Suite => contents s.tests) (SuGood S) where
+theorem objAt_ok {S : Sem Content} {st : List Tc} (h : ∀ t ∈ st, TcOK S t) (i : Nat) : TcOK S (objAt st i) := by
+  cases hi : st[i]? with
+  | none => simp only [objAt, List.getD_eq_getElem?_getD, hi, Option.getD_none]; exact tcNew_ok 0 []
+  | some t => rw [objAt_of_getElem? hi]; exact h t (mem_of_getElem? hi)
+
+theorem objAt_set (st : List Tc) (i j : Nat) (x : Tc) :
+    objAt (st.set i x) j = if i = j ∧ i < st.length then x else objAt st j := by
+  simp only [objAt, List.getD_eq_getElem?_getD, List.getElem?_set]
+  by_cases hij : i = j
+  · subst hij
+    by_cases hl : i < st.length
+    · simp [hl]
+    · simp [hl]
+  · simp [hij]
+
+/-- the two stores hold the same statements, object by object -/
+def SameC (st st' : List Tc) : Prop := ∀ j, (objAt st' j).content = (objAt st j).content
+
+theorem sameC_set (st : List Tc) (i : Nat) (x : Tc) (hx : x.content = (objAt st i).content) :
+    SameC st (st.set i x) := by
+  intro j
+  rw [objAt_set]
+  by_cases h : i = j ∧ i < st.length
+  · rw [if_pos h, hx, h.1]
+  · rw [if_neg h]
+
+theorem contents_congr {st st' : List Tc} (h : SameC st st') (order : List Nat) :
+    contents (order.map (objAt st')) = contents (order.map (objAt st)) := by
+  simp only [contents, List.map_map]
+  exact List.map_congr_left fun i _ => h i
+
+theorem members_ok {S : Sem Content} (s : Suite) (hg : SuGood S s) : ∀ t ∈ s.members, TcOK S t := by
+  intro t ht
+  simp only [Suite.members, List.mem_map] at ht
+  obtain ⟨i, _, e⟩ := ht
+  exact e ▸ objAt_ok hg i
+
+theorem executed_ok {S : Sem Content} (t : Tc) (ht : TcOK S t) : TcOK S (t.executed t.content) := by
+  obtain ⟨_, hr, _⟩ := ht
+  refine ⟨?_, regInv_invalidate _, fun _ => cacheFresh_invalidate S _ _⟩
+  intro _ r hres
+  simp only [Tc.executed, Option.some.injEq] at hres
+  exact hres.symm
+
+/-- the hand-out loop never touches the statements -/
+theorem handOut_sameC : ∀ (ps : List (Nat × Bool)) (st : List Tc) (it : List Content) (p : List Tc × List Content),
+    handOut st ps it = some p → SameC st p.1
+  | [], st, it, p, h => by
+    simp only [handOut, Option.some.injEq] at h
+    subst h; intro j; rfl
+  | (i, true) :: ps, st, [], p, h => by simp [handOut] at h
+  | (i, true) :: ps, st, r :: it, p, h => by
+    simp only [handOut, Option.map_eq_some_iff] at h
+    obtain ⟨q, hq, e⟩ := h
+    subst e
+    have ih := handOut_sameC ps _ it q hq
+    intro j
+    rw [ih j]
+    exact sameC_set st i ((objAt st i).executed r) rfl j
+  | (i, false) :: ps, st, it, p, h => by
+    simp only [handOut] at h
+    cases hr : (objAt st i).result with
+    | none => simp [hr] at h
+    | some r =>
+      simp only [hr, Option.map_eq_some_iff] at h
+      obtain ⟨q, hq, e⟩ := h
+      subst e
+      exact handOut_sameC ps st it q hq
+
+/-- **every position is handed the result of executing ITS OWN test**: with the flags of the snapshot and the
+results of the flagged positions in position order, the loop neither runs dry nor shifts — also when one object
+sits at several positions (flagged at all of them, executed once per position, every copy of the result equal) -/
+theorem handOut_spec {S : Sem Content} : ∀ (ps : List (Nat × Bool)) (st : List Tc) (it : List Content),
+    (∀ t ∈ st, TcOK S t) → it = pendingResults st ps →
+    (∀ p ∈ ps, p.2 = false → needsExec (objAt st p.1) = false) →
+    ∃ st', handOut st ps it = some (st', ps.map fun p => (objAt st p.1).content) ∧ (∀ t ∈ st', TcOK S t)
+  | [], st, it, h, _, _ => ⟨st, by simp [handOut], h⟩
+  | (i, true) :: ps, st, it, h, hit, hn => by
+    have hit' : it = (objAt st i).content :: pendingResults st ps := by simpa [pendingResults] using hit
+    subst hit'
+    obtain ⟨x, hxdef⟩ : ∃ x, x = (objAt st i).executed (objAt st i).content := ⟨_, rfl⟩
+    have hx : TcOK S x := hxdef ▸ executed_ok _ (objAt_ok h i)
+    have hxc : x.content = (objAt st i).content := by rw [hxdef]; rfl
+    have hst' : ∀ t ∈ st.set i x, TcOK S t := forall_set h i x hx
+    have hsame : SameC st (st.set i x) := sameC_set st i x hxc
+    have hpend : pendingResults st ps = pendingResults (st.set i x) ps := by
+      simp only [pendingResults]
+      exact List.map_congr_left fun p _ => (hsame p.1).symm
+    have hn' : ∀ p ∈ ps, p.2 = false → needsExec (objAt (st.set i x) p.1) = false := by
+      intro p hp hf
+      rw [objAt_set]
+      by_cases hc : i = p.1 ∧ i < st.length
+      · rw [if_pos hc, hxdef]; simp [needsExec, Tc.executed]
+      · rw [if_neg hc]; exact hn p (List.mem_cons_of_mem _ hp) hf
+    obtain ⟨st', e1, e2⟩ := handOut_spec ps (st.set i x) _ hst' hpend hn'
+    refine ⟨st', ?_, e2⟩
+    simp only [handOut, ← hxdef, e1, Option.map_some, List.map_cons]
+    congr 2
+    congr 1
+    exact List.map_congr_left fun p _ => hsame p.1
+  | (i, false) :: ps, st, it, h, hit, hn => by
+    have hne := hn (i, false) (by simp) rfl
+    simp only [needsExec, Bool.or_eq_false_iff] at hne
+    have hgood := (objAt_ok (S := S) h i).1 hne.1
+    have hit' : it = pendingResults st ps := by simpa [pendingResults] using hit
+    obtain ⟨st', e1, e2⟩ := handOut_spec ps st it h hit' (fun p hp => hn p (List.mem_cons_of_mem _ hp))
+    refine ⟨st', ?_, e2⟩
+    cases hr : (objAt st i).result with
+    | none => simp [hr] at hne
+    | some r =>
+      have := hgood r hr
+      simp only [handOut, hr, e1, Option.map_some, List.map_cons, this]
+
+theorem suRun_spec {S : Sem Content} (s : Suite) (hg : SuGood S s) :
+    ∃ st', s.run = ({ s with objs := st' }, contents s.members) ∧ (∀ t ∈ st', TcOK S t) ∧ SameC s.objs st' := by
+  obtain ⟨st', e1, e2⟩ := handOut_spec (S := S) (snapshot s.objs s.order) s.objs _ hg rfl (by
+    intro p hp hf
+    simp only [snapshot, List.mem_map] at hp
+    obtain ⟨i, _, e⟩ := hp
+    subst e
+    exact hf)
+  refine ⟨st', ?_, e2, handOut_sameC _ _ _ _ e1⟩
+  simp only [Suite.run, e1]
+  simp only [contents, Suite.members, snapshot, List.map_map]
+  rfl
+
+theorem suRun_truth (s : Suite) : contents s.run.1.members = contents s.members := by
+  simp only [Suite.run]
+  cases h : handOut s.objs (snapshot s.objs s.order) (pendingResults s.objs (snapshot s.objs s.order)) with
+  | none => rfl
+  | some p => exact contents_congr (handOut_sameC _ _ _ _ h) s.order
+
+theorem suLaws (S : Sem Content) : Laws suiteHost (fun s : Suite => contents s.members) (SuGood S) where
   run_good := by
-    intro s hg t' ht'
-    simp only [suiteHost, Suite.run, List.mem_map] at ht'
-    obtain ⟨t, ht, e⟩ := ht'
-    exact e ▸ (runMember_spec t (hg t ht)).1
+    intro s hg
+    obtain ⟨st', e, h1, _⟩ := suRun_spec s hg
+    simp only [suiteHost, e]; exact h1
   run_val := by
     intro s hg
-    simp only [suiteHost, Suite.run, contents]
-    exact List.map_congr_left fun t ht => (runMember_spec t (hg t ht)).2.2
-  run_truth := by
-    intro s
-    simp only [suiteHost, Suite.run, contents, List.map_map]
-    apply List.map_congr_left
-    intro t _
-    obtain ⟨c, ch, r, ca⟩ := t
-    cases ch <;> cases r <;> simp [runMember]
+    obtain ⟨st', e, _, _⟩ := suRun_spec s hg
+    simp only [suiteHost, e]
+  run_truth := by intro s; exact suRun_truth s
   run_clear := by
-    intro s hg t' ht'
-    simp only [suiteHost, Suite.run, List.mem_map] at ht'
-    obtain ⟨t, ht, e⟩ := ht'
-    exact e ▸ (runMember_spec t (hg t ht)).1
+    intro s hg
+    obtain ⟨st', e, h1, _⟩ := suRun_spec s hg
+    simp only [suiteHost, e]; exact h1
   clear_truth := by intro s; rfl
 
 theorem suQuery_spec {S : Sems} (hS : S.su.Consistent) {V : Ver} (hV : V.keepFlag = true) (q : Query) (s : Suite)
     (hs : SuiteOK S s) (hq : Registered s.cache q) :
     SuiteOK S (Suite.query S.su V q s).1 ∧
-    (Suite.query S.su V q s).2 = expected S.su (contents s.tests) s.cache.funcs s.cache.covFuncs q := by
+    (Suite.query S.su V q s).2 = expected S.su (contents s.members) s.cache.funcs s.cache.covFuncs q := by
   obtain ⟨hg, hr, hf⟩ := hs
   obtain ⟨a1, a2, a3, a4, _, _, a7⟩ := cacheQuery_spec (suLaws S.tc) hS hV q s s.cache hg hr hf hq
   simp only [Suite.query]
   exact ⟨⟨a1, a4, fun _ => a2 ▸ a3⟩, a7⟩
 
-/-- editing one member without touching its content keeps the suite's invariant -/
-theorem suite_setMember {S : Sems} (s : Suite) (k : Nat) (t t' : Tc) (hs : SuiteOK S s) (hk : s.tests[k]? = some t)
-    (ht' : TcOK S.tc t') (hc : t'.content = t.content) : SuiteOK S { s with tests := s.tests.set k t' } := by
+/-- editing one member object without touching its statements keeps the suite's invariant -/
+theorem suite_setMember {S : Sems} (s : Suite) (i : Nat) (t t' : Tc) (hs : SuiteOK S s) (hk : s.objs[i]? = some t)
+    (ht' : TcOK S.tc t') (hc : t'.content = t.content) : SuiteOK S { s with objs := s.objs.set i t' } := by
   obtain ⟨hg, hr, hf⟩ := hs
-  refine ⟨?_, hr, ?_⟩
-  · intro x hx
-    rcases List.mem_or_eq_of_mem_set hx with h | h
-    · exact hg x h
-    · exact h ▸ ht'
-  · intro hch
-    have : contents (s.tests.set k t') = contents s.tests := by
-      simp only [contents, List.map_set]
-      apply List.ext_getElem?
-      intro i
-      rw [List.getElem?_set]
-      by_cases hik : k = i
-      · subst hik
-        obtain ⟨hlt, hget⟩ := List.getElem?_eq_some_iff.1 hk
-        simp [hlt, hc, hget]
-      · simp [hik]
-    simp only [this]; exact hf hch
+  refine ⟨forall_set hg i t' ht', hr, ?_⟩
+  intro hch
+  have hsame : SameC s.objs (s.objs.set i t') := sameC_set _ i t' (by rw [objAt_of_getElem? hk]; exact hc)
+  have := contents_congr hsame s.order
+  simp only [Suite.members] at this ⊢
+  rw [this]; exact hf hch
 
-theorem mutMembers_spec {S : Sem Content} {V : Ver} (hV : V.useInsert = true) :
-    ∀ (ts : List Tc) (es : List (Option MutEff)), perHonest ts es = true → (∀ t ∈ ts, TcOK S t) →
-      (∀ t ∈ (mutMembers V ts es).1, TcOK S t) ∧
-      ((mutMembers V ts es).2 = false → contents (mutMembers V ts es).1 = contents ts)
-  | [], es, _, h => by cases es <;> simp [mutMembers]
-  | t :: ts, [], _, h => ⟨by simpa [mutMembers] using h, fun _ => by simp [mutMembers]⟩
-  | t :: ts, none :: es, hh, h => by
-    have ih := mutMembers_spec hV ts es (by simpa [perHonest] using hh) (fun x hx => h x (List.mem_cons_of_mem _ hx))
-    simp only [mutMembers]
-    refine ⟨?_, ?_⟩
-    · intro x hx
-      rcases List.mem_cons.1 hx with e | e
-      · exact e ▸ h t (by simp)
-      · exact ih.1 x e
-    · intro hb
-      simp only [contents, List.map_cons]
-      have := ih.2 hb
-      simp only [contents] at this
-      rw [this]
-  | t :: ts, some e :: es, hh, h => by
+theorem mutObjs_spec {S : Sem Content} {V : Ver} (hV : V.useInsert = true) :
+    ∀ (is : List Nat) (es : List (Option MutEff)) (st : List Tc), perHonest V st is es = true →
+      (∀ t ∈ st, TcOK S t) →
+      (∀ t ∈ (mutObjs V st is es).1, TcOK S t) ∧ ((mutObjs V st is es).2 = false → SameC st (mutObjs V st is es).1)
+  | [], [], st, _, h => ⟨by simpa [mutObjs] using h, fun _ j => by simp [mutObjs]⟩
+  | [], _ :: _, st, _, h => ⟨by simpa [mutObjs] using h, fun _ j => by simp [mutObjs]⟩
+  | _ :: _, [], st, _, h => ⟨by simpa [mutObjs] using h, fun _ j => by simp [mutObjs]⟩
+  | i :: is, none :: es, st, hh, h => by
+    have ih := mutObjs_spec hV is es st (by simpa [perHonest] using hh) h
+    simpa only [mutObjs] using ih
+  | i :: is, some e :: es, st, hh, h => by
     simp only [perHonest, Bool.and_eq_true] at hh
-    have ih := mutMembers_spec hV ts es hh.2 (fun x hx => h x (List.mem_cons_of_mem _ hx))
-    simp only [mutMembers]
-    refine ⟨?_, ?_⟩
-    · intro x hx
-      rcases List.mem_cons.1 hx with e' | e'
-      · exact e' ▸ tcMutate_ok hV t e hh.1 (h t (by simp))
-      · exact ih.1 x e'
-    · intro hb
-      simp only [Bool.or_eq_false_iff] at hb
-      simp only [contents, List.map_cons]
-      have := ih.2 hb.2
-      simp only [contents] at this
-      rw [this, (tcMutate_content hV t e hh.1 hb.1).1]
+    have hti := objAt_ok h i
+    have hok := tcMutate_ok hV (objAt st i) e hh.1 hti
+    have ih := mutObjs_spec hV is es (st.set i ((objAt st i).mutate V e)) hh.2 (forall_set h i _ hok)
+    simp only [mutObjs]
+    refine ⟨ih.1, ?_⟩
+    intro hb
+    simp only [Bool.or_eq_false_iff] at hb
+    have hc := (tcMutate_content hV (objAt st i) e hh.1 hb.1).1
+    intro j
+    rw [ih.2 hb.2 j]
+    exact sameC_set st i _ hc j
 
-theorem filter_eq_of_length {p : Tc → Bool} {l : List Tc} (h : (l.filter p).length = l.length) : l.filter p = l := by
+theorem filter_eq_of_length {p : α → Bool} {l : List α} (h : (l.filter p).length = l.length) : l.filter p = l := by
   induction l with
   | nil => rfl
   | cons a l ih =>
@@ -222,37 +330,41 @@ theorem filter_eq_of_length {p : Tc → Bool} {l : List Tc} (h : (l.filter p).le
       omega
 
 theorem suMutate_ok {S : Sems} {V : Ver} (hV : V.useInsert = true) (s : Suite) (e : SuiteMutEff)
-    (hh : perHonest s.tests e.per = true) (hfl : V.flagFilter = true ∨ s.filterOk V e = true) (hs : SuiteOK S s) :
-    SuiteOK S (s.mutate V e) := by
+    (hh : perHonest V s.objs s.order e.per = true) (hfl : V.flagFilter = true ∨ s.filterOk V e = true)
+    (hs : SuiteOK S s) : SuiteOK S (s.mutate V e) := by
   obtain ⟨hg, hr, hf⟩ := hs
-  have sp := mutMembers_spec (S := S.tc) hV s.tests e.per hh hg
+  have sp := mutObjs_spec (S := S.tc) hV s.order e.per s.objs hh hg
   refine ⟨?_, hr, ?_⟩
   · intro x hx
-    simp only [Suite.mutate, List.mem_filter, List.mem_append, List.mem_map] at hx
-    rcases hx.1 with h | ⟨p, _, hp⟩
+    simp only [Suite.mutate, List.mem_append, List.mem_map] at hx
+    rcases hx with h | ⟨p, _, hp⟩
     · exact sp.1 x h
     · exact hp ▸ tcNew_ok p.1 p.2
   · intro hch
-    simp only [Suite.mutate] at hch ⊢
+    simp only [Suite.mutate] at hch
     -- the flag stayed False: nothing was flagged, nothing added, nothing dropped
-    by_cases hb : (mutMembers V s.tests e.per).2 = true
+    by_cases hb : (mutObjs V s.objs s.order e.per).2 = true
     · cases hV3 : V.flagFilter <;> simp [hb, hV3] at hch
-    · have hb' : (mutMembers V s.tests e.per).2 = false := by simpa using hb
+    · have hb' : (mutObjs V s.objs s.order e.per).2 = false := by simpa using hb
       by_cases hadd : e.added = []
-      · simp only [hadd, List.map_nil, List.append_nil, List.isEmpty_nil, Bool.not_true, Bool.or_false, hb'] at hch ⊢
-        have hkeep : (mutMembers V s.tests e.per).1.filter (fun t => t.content != 0) = (mutMembers V s.tests e.per).1 := by
+      · simp only [hadd, List.map_nil, List.append_nil, List.isEmpty_nil, Bool.not_true, Bool.or_false, hb',
+          List.length_nil, List.range_zero] at hch
+        have hkeep : s.order.filter (fun i => (objAt (mutObjs V s.objs s.order e.per).1 i).content != 0) = s.order := by
           rcases hfl with h3 | h3
           · simp only [h3, if_true, Bool.false_or] at hch
-            by_cases hl : ((mutMembers V s.tests e.per).1.filter (fun t => t.content != 0)).length
-                = (mutMembers V s.tests e.per).1.length
+            by_cases hl : (s.order.filter (fun i => (objAt (mutObjs V s.objs s.order e.per).1 i).content != 0)).length
+                = s.order.length
             · exact filter_eq_of_length hl
             · simp [hl] at hch
           · simp only [Suite.filterOk, hb', hadd, List.isEmpty_nil, Bool.not_true, Bool.or_false, Bool.false_or,
-              List.map_nil, List.append_nil, List.all_eq_true] at h3
+              List.all_eq_true] at h3
             exact List.filter_eq_self.2 h3
         have hsch : s.changed = false := by
           cases hV3 : V.flagFilter <;> simp [hV3, hkeep] at hch <;> exact hch
-        rw [hkeep, sp.2 hb']
+        have hmem : (s.mutate V e).members = s.order.map (objAt (mutObjs V s.objs s.order e.per).1) := by
+          simp only [Suite.mutate, Suite.members, hadd, List.map_nil, List.append_nil, List.length_nil,
+            List.range_zero, hkeep]
+        rw [hmem, contents_congr (sp.2 hb') s.order]
         exact hf hsch
       · have : e.added.isEmpty = false := by
           cases hx : e.added with
@@ -268,17 +380,30 @@ theorem suAddTest_ok {S : Sems} (s : Suite) (t : Tc) (hs : SuiteOK S s) (ht : Tc
   · exact hs.1 x h
   · exact h ▸ ht
 
+theorem suAddAlias_ok {S : Sems} (s : Suite) (k : Nat) (hs : SuiteOK S s) : SuiteOK S (s.addAlias k) := by
+  simp only [Suite.addAlias]
+  cases s.order[k]? with
+  | none => exact hs
+  | some i => exact ⟨hs.1, hs.2.1, by simp⟩
+
+theorem suSetAlias_ok {S : Sems} (s : Suite) (k j : Nat) (hs : SuiteOK S s) : SuiteOK S (s.setAlias k j) := by
+  simp only [Suite.setAlias]
+  cases s.order[j]? with
+  | none => exact hs
+  | some i => exact ⟨hs.1, hs.2.1, by simp⟩
+
 theorem suDelTest_ok {S : Sems} (s : Suite) (k : Nat) (hs : SuiteOK S s) : SuiteOK S (s.delTest k) := by
-  by_cases hk : k < s.tests.length
+  by_cases hk : k < s.order.length
   · simp only [Suite.delTest, hk, if_true]
-    exact ⟨fun x hx => hs.1 x (List.mem_of_mem_eraseIdx hx), hs.2.1, by simp⟩
+    exact ⟨hs.1, hs.2.1, by simp⟩
   · simp only [Suite.delTest, hk, if_false]; exact hs
 
 theorem suSetTest_ok {S : Sems} (s : Suite) (k : Nat) (t : Tc) (hs : SuiteOK S s) (ht : TcOK S.tc t) :
     SuiteOK S (s.setTest k t) := by
   refine ⟨?_, hs.2.1, by simp [Suite.setTest]⟩
   intro x hx
-  rcases List.mem_or_eq_of_mem_set hx with h | h
+  simp only [Suite.setTest, List.mem_append, List.mem_singleton] at hx
+  rcases hx with h | h
   · exact hs.1 x h
   · exact h ▸ ht
 
@@ -288,8 +413,25 @@ theorem suSplice_ok {S : Sems} (s : Suite) (o : List Tc) (p1 p2 : Nat) (hs : Sui
   intro x hx
   simp only [Suite.splice, List.mem_append] at hx
   rcases hx with h | h
-  · exact hs.1 x (List.mem_of_mem_take h)
+  · exact hs.1 x h
   · exact ho x (List.mem_of_mem_drop h)
+
+theorem range_map_objAt (l : List Tc) : (List.range l.length).map (objAt l) = l := by
+  apply List.ext_getElem
+  · simp
+  · intro j h1 h2
+    simp only [List.getElem_map, List.getElem_range]
+    exact objAt_of_getElem? (List.getElem?_eq_getElem h2)
+
+/-- `clone()` copies position by position: same statements, same flags, same caches — no shared objects -/
+theorem suClone_ok {S : Sems} (s : Suite) (hs : SuiteOK S s) : SuiteOK S s.clone := by
+  refine ⟨members_ok s hs.1, hs.2.1, ?_⟩
+  intro hch
+  have : s.clone.members = s.members := by
+    have hl : s.order.length = s.members.length := by simp [Suite.members]
+    simp only [Suite.clone, Suite.members] at hl ⊢
+    rw [hl]; exact range_map_objAt _
+  rw [this]; exact hs.2.2 hch
 
 theorem suEdit_ok {S : Sems} {g : Cache → Cache} (hg : CacheEdit g) (s : Suite) (hs : SuiteOK S s) :
     SuiteOK S { s with cache := g s.cache } :=
@@ -298,16 +440,6 @@ theorem suEdit_ok {S : Sems} {g : Cache → Cache} (hg : CacheEdit g) (s : Suite
 /-! ## worlds -/
 
 def WOK (S : Sems) (w : World) : Prop := (∀ t ∈ w.tcs, TcOK S.tc t) ∧ (∀ s ∈ w.suites, SuiteOK S s)
-
-theorem mem_of_getElem? {l : List α} {i : Nat} {a : α} (h : l[i]? = some a) : a ∈ l :=
-  List.mem_iff_getElem?.2 ⟨i, h⟩
-
-theorem forall_set {P : α → Prop} {l : List α} (h : ∀ a ∈ l, P a) (i : Nat) (b : α) (hb : P b) :
-    ∀ a ∈ l.set i b, P a := by
-  intro a ha
-  rcases List.mem_or_eq_of_mem_set ha with e | e
-  · exact h a e
-  · exact e ▸ hb
 
 theorem forall_put {P : α → Prop} {l l' : List α} (h : ∀ a ∈ l, P a) (i : Nat) (b : α) (hb : P b)
     (hp : put l i b = some l') : ∀ a ∈ l', P a := by
@@ -338,17 +470,22 @@ theorem onSuite_ok {S : Sems} (w : World) (i : Nat) (f : Suite → Suite × Out)
   | some s => exact ⟨hw.1, forall_set hw.2 i _ (hf s h)⟩
 
 theorem onMem_ok {S : Sems} (w : World) (i k : Nat) (f : Tc → Tc × Out) (hw : WOK S w)
-    (hf : ∀ s t, w.suites[i]? = some s → s.tests[k]? = some t → TcOK S.tc (f t).1 ∧ (f t).1.content = t.content) :
+    (hf : ∀ s j t, w.suites[i]? = some s → s.order[k]? = some j → s.objs[j]? = some t →
+      TcOK S.tc (f t).1 ∧ (f t).1.content = t.content) :
     WOK S (onMem w i k f).1 := by
   simp only [onMem]
   apply onSuite_ok w i _ hw
   intro s hs
   have hsok := hw.2 s (mem_of_getElem? hs)
-  cases ht : s.tests[k]? with
+  cases hj : s.order[k]? with
   | none => exact hsok
-  | some t =>
-    obtain ⟨h1, h2⟩ := hf s t hs ht
-    exact suite_setMember s k t (f t).1 hsok ht h1 h2
+  | some j =>
+    dsimp only
+    cases ht : s.objs[j]? with
+    | none => exact hsok
+    | some t =>
+      obtain ⟨h1, h2⟩ := hf s j t hs hj ht
+      exact suite_setMember s j t (f t).1 hsok ht h1 h2
 
 theorem onCache_ok {S : Sems} (w : World) (r : Ref) {g : Cache → Cache} (hg : CacheEdit g) (hw : WOK S w) :
     WOK S (onCache w r g).1 := by
@@ -356,7 +493,7 @@ theorem onCache_ok {S : Sems} (w : World) (r : Ref) {g : Cache → Cache} (hg : 
   | tc i => exact onTc_ok w i _ hw fun t ht => tcEdit_ok hg t (hw.1 t (mem_of_getElem? ht))
   | su s => exact onSuite_ok w s _ hw fun x hx => suEdit_ok hg x (hw.2 x (mem_of_getElem? hx))
   | mem s k =>
-    exact onMem_ok w s k _ hw fun x t hx ht =>
+    exact onMem_ok w s k _ hw fun x _ t hx _ ht =>
       ⟨tcEdit_ok hg t ((hw.2 x (mem_of_getElem? hx)).1 t (mem_of_getElem? ht)), rfl⟩
 
 /-- the versions covered by the theorems: both proposed repairs applied -/
@@ -416,11 +553,11 @@ theorem step_ok {S : Sems} (hS : S.Consistent) {V : Ver} (hV : V.Repaired) (stri
     cases h : w.suites[src]? with
     | none => simp only [step, h]; exact hw
     | some s =>
-      cases hp : put w.suites dst s with
+      cases hp : put w.suites dst s.clone with
       | none => simp only [step, h, hp]; exact hw
       | some l =>
         simp only [step, h, hp]
-        exact ⟨hw.1, forall_put hw.2 dst s (hw.2 s (mem_of_getElem? h)) hp⟩
+        exact ⟨hw.1, forall_put hw.2 dst s.clone (suClone_ok s (hw.2 s (mem_of_getElem? h))) hp⟩
   | addTest s i =>
     simp only [step]
     cases h : w.tcs[i]? with
@@ -437,10 +574,24 @@ theorem step_ok {S : Sems} (hS : S.Consistent) {V : Ver} (hV : V.Repaired) (stri
     | some t =>
       apply onSuite_ok w s _ hw
       intro x hx
-      by_cases hk : k < x.tests.length
+      by_cases hk : k < x.order.length
       · simp only [hk, if_true]
         exact suSetTest_ok x k t (hw.2 x (mem_of_getElem? hx)) (hw.1 t (mem_of_getElem? h))
       · simp only [hk, if_false]; exact hw.2 x (mem_of_getElem? hx)
+  | addAlias s k =>
+    simp only [step]
+    apply onSuite_ok w s _ hw
+    intro x hx
+    by_cases hk : k < x.order.length
+    · simp only [hk, if_true]; exact suAddAlias_ok x k (hw.2 x (mem_of_getElem? hx))
+    · simp only [hk, if_false]; exact hw.2 x (mem_of_getElem? hx)
+  | setAlias s k j =>
+    simp only [step]
+    apply onSuite_ok w s _ hw
+    intro x hx
+    by_cases hk : (k < x.order.length && j < x.order.length) = true
+    · simp only [hk, if_true]; exact suSetAlias_ok x k j (hw.2 x (mem_of_getElem? hx))
+    · simp only [hk]; exact hw.2 x (mem_of_getElem? hx)
   | mutateSuite s e =>
     simp only [step]
     apply onSuite_ok w s _ hw
@@ -466,11 +617,11 @@ theorem step_ok {S : Sems} (hS : S.Consistent) {V : Ver} (hV : V.Repaired) (stri
         have hb' := hw.2 b (mem_of_getElem? ht)
         by_cases hst' : s = t
         · simp [hst']; exact hw
-        · by_cases hsm : (a.tests.length < 2 || b.tests.length < 2) = true
+        · by_cases hsm : (a.order.length < 2 || b.order.length < 2) = true
           · simp only [hst', if_false, hsm, if_true]; exact hw
           · simp only [hst', if_false, hsm]
-            exact ⟨hw.1, forall_set (forall_set hw.2 s _ (suSplice_ok a b.tests p1 p2 ha' hb'.1)) t _
-              (suSplice_ok b a.tests p2 p1 hb' ha'.1)⟩
+            exact ⟨hw.1, forall_set (forall_set hw.2 s _ (suSplice_ok a b.members p1 p2 ha' (members_ok b hb'.1))) t _
+              (suSplice_ok b a.members p2 p1 hb' (members_ok a ha'.1))⟩
   | crossTc i j e =>
     simp only [step]
     cases hi : w.tcs[i]? with
@@ -488,7 +639,7 @@ theorem step_ok {S : Sems} (hS : S.Consistent) {V : Ver} (hV : V.Repaired) (stri
       | none => exact hw
       | some b =>
         exact ⟨hw.1, forall_set hw.2 s _
-          (suSplice_ok a b.tests p1 p2 (hw.2 a (mem_of_getElem? hs)) (hw.2 b (mem_of_getElem? ht)).1)⟩
+          (suSplice_ok a b.members p1 p2 (hw.2 a (mem_of_getElem? hs)) (members_ok b (hw.2 b (mem_of_getElem? ht)).1))⟩
   | addFit r f => exact onCache_ok w r (cacheEdit_addFit f) hw
   | addCov r f => exact onCache_ok w r (cacheEdit_addCov f) hw
   | invalidate r => exact onCache_ok w r cacheEdit_invalidate hw
@@ -509,8 +660,8 @@ theorem step_ok {S : Sems} (hS : S.Consistent) {V : Ver} (hV : V.Repaired) (stri
     | mem s k =>
       simp only [step]
       apply onMem_ok w s k _ hw
-      intro x t hx ht
-      simp only [admissible, refCache, hx, Option.bind_some, ht, Option.map_some] at ha
+      intro x j t hx hj ht
+      simp only [admissible, refCache, hx, Option.bind_some, hj, ht, Option.map_some] at ha
       have := tcQuery_spec hS.1 hV.1 q t ((hw.2 x (mem_of_getElem? hx)).1 t (mem_of_getElem? ht))
         ((registered_iff _ _).1 ha)
       exact ⟨this.1, this.2.1⟩
@@ -548,15 +699,18 @@ theorem step_out {S : Sems} (hS : S.Consistent) {V : Ver} (hV : V.Repaired) (str
       cases hx : w.suites[s]? with
       | none => simp [hx] at he
       | some x =>
-        cases ht : x.tests[k]? with
-        | none => simp [hx, ht] at he
-        | some t =>
-          simp only [hx, Option.bind_some, ht, Option.map_some, Option.some.injEq] at he
-          simp only [admissible, refCache, hx, Option.bind_some, ht, Option.map_some] at ha
-          have := (tcQuery_spec hS.1 hV.1 q t ((hw.2 x (mem_of_getElem? hx)).1 t (mem_of_getElem? ht))
-            ((registered_iff _ _).1 ha)).2.2.2.2
-          simp only [step, onMem, onSuite, hx, ht]
-          rw [this, he]
+        cases hj : x.order[k]? with
+        | none => simp [hx, hj] at he
+        | some j =>
+          cases ht : x.objs[j]? with
+          | none => simp [hx, hj, ht] at he
+          | some t =>
+            simp only [hx, Option.bind_some, hj, ht, Option.map_some, Option.some.injEq] at he
+            simp only [admissible, refCache, hx, Option.bind_some, hj, ht, Option.map_some] at ha
+            have := (tcQuery_spec hS.1 hV.1 q t ((hw.2 x (mem_of_getElem? hx)).1 t (mem_of_getElem? ht))
+              ((registered_iff _ _).1 ha)).2.2.2.2
+            simp only [step, onMem, onSuite, hx, hj, ht]
+            rw [this, he]
   | _ => simp [outOk]
 
 theorem wok_empty (S : Sems) : WOK S {} := ⟨by intro t ht; simp at ht, by intro s hs; simp at hs⟩
